@@ -268,6 +268,11 @@ func runC08(t *testing.T, s *kit.Session, c c08Case) *kit.Failure {
 	if len(checkpoints) > 0 {
 		classes = append(classes, "checkpoint_checked")
 	}
+	for _, g := range c.Gen {
+		if g == "retroactive_revocation_after_cached_full_verification" {
+			classes = append(classes, g)
+		}
+	}
 	s.Observe(c, (populated && laterPolicyOrAtt) || rejecting || len(c.Steps) >= 2, classes...)
 	return nil
 }
@@ -281,7 +286,47 @@ func eventOfEntry(b *kit.Built, entry string) int {
 	return 0
 }
 
+// genC08Retro builds the shape in which the verdict of an already verified
+// prefix changes afterwards: a violation is revoked and repaired, the reference
+// is verified in full with the cache (which records a resume point), and only
+// then is the fix (or the last good entry) revoked as well.
+func genC08Retro(rt *rapid.T) c08Case {
+	w := kit.World{Policies: c07Policies()}
+	add := func(e kit.Event) int { w.Events = append(w.Events, e); return len(w.Events) - 1 }
+	add(kit.Event{Kind: "policy", Policy: 0, Signer: -1})
+	good := add(kit.Event{Kind: "push", Ref: "refs/heads/main", Tree: 0, Signer: 0})
+	if rapid.Bool().Draw(rt, "other1") {
+		add(kit.Event{Kind: "other", Ref: "refs/heads/unrelated", Tree: 1, Signer: -1})
+	}
+	bad := add(kit.Event{Kind: "push", Ref: "refs/heads/main", Tree: 1, Signer: wgUnknownKey})
+	add(kit.Event{Kind: "annotate", Targets: []int{bad}, Skip: true, Signer: -1})
+	fix := add(kit.Event{Kind: "push", Ref: "refs/heads/main", Tree: 0, Signer: rapid.SampledFrom([]int{0, wgUnknownKey}).Draw(rt, "fixsigner")})
+	last := fix
+	if rapid.Bool().Draw(rt, "onemore") {
+		last = add(kit.Event{Kind: "push", Ref: "refs/heads/main", Tree: rapid.IntRange(0, 2).Draw(rt, "tree4"), Signer: 0})
+	}
+	if rapid.Bool().Draw(rt, "release") {
+		add(kit.Event{Kind: "push", Ref: "refs/heads/release", Tree: 1, Signer: 0})
+	}
+	verifyAfter := len(w.Events) - 1
+	target := rapid.SampledFrom([]int{fix, fix, good, last}).Draw(rt, "revoked")
+	add(kit.Event{Kind: "annotate", Targets: []int{target}, Skip: true, Signer: -1})
+	if rapid.Bool().Draw(rt, "other2") {
+		add(kit.Event{Kind: "other", Ref: "refs/heads/unrelated", Tree: 2, Signer: -1})
+	}
+	w.Normalise()
+	c := c08Case{World: w, Gen: []string{"retroactive_revocation_after_cached_full_verification"}, PopulateAt: rapid.IntRange(0, verifyAfter).Draw(rt, "populate_at")}
+	c.Steps = []c08Step{{After: verifyAfter, Ref: "refs/heads/main", Mode: "full"}}
+	if rapid.Bool().Draw(rt, "twice") {
+		c.Steps = append(c.Steps, c08Step{After: verifyAfter, Ref: "refs/heads/main", Mode: rapid.SampledFrom([]string{"full", "latest"}).Draw(rt, "mode2")})
+	}
+	return c
+}
+
 func genC08(rt *rapid.T) c08Case {
+	if rapid.IntRange(0, 5).Draw(rt, "retro") == 0 {
+		return genC08Retro(rt)
+	}
 	cl := map[string]bool{}
 	w := genWorld(rt, wgOptions{Delegation: true, MaxEvents: 14}, cl)
 	c := c08Case{World: w, Gen: sortedKeys(cl), PopulateAt: -1}
@@ -307,6 +352,6 @@ func TestC08(t *testing.T) {
 		kit.DoReplay(s, t, rf, run)
 		return
 	}
-	s.SetRule("rapid: C01 worlds (key-disjoint principals, up to 14 events) x cache configuration {never populated, PopulatePersistentCache after event k for any k} x 0-4 earlier verifications (full / latest-only, of any ref, at any later point of the log's growth, each of which advances the cache). Metamorphic oracle: every verification mode (full, latest-only, mergeability) of every ref gives the same verdict and tip as on an identical log without any cache; the same when repeated in one process; VerifyRefFromEntry from every entry reached by an earlier successful full verification equals full verification; the ref listing changes at most in refs/local/gittuf/persistent-cache. Non-trivial: cache populated before a later policy/attestation entry, or a rejecting history, or >=2 earlier verifications")
+	s.SetRule("rapid: C01 worlds (key-disjoint principals, up to 14 events) x cache configuration {never populated, PopulatePersistentCache after event k for any k} x 0-4 earlier verifications (full / latest-only, of any ref, at any later point of the log's growth, each of which advances the cache); one case in six is the targeted shape 'violation revoked and repaired, reference verified in full with the cache, then the fix / last good / latest entry revoked too'. Metamorphic oracle: every verification mode (full, latest-only, mergeability) of every ref gives the same verdict and tip as on an identical log without any cache; the same when repeated in one process; VerifyRefFromEntry from every entry reached by an earlier successful full verification equals full verification; the ref listing changes at most in refs/local/gittuf/persistent-cache. Non-trivial: cache populated before a later policy/attestation entry, or a rejecting history, or >=2 earlier verifications")
 	kit.Campaign(s, t, "cache", "cache", s.Budget(6_000, 150_000), genC08, run)
 }
